@@ -759,9 +759,11 @@ class _Exporter:
         add(f"{indent}@script({default_opset})")
         # The parameters must carry the names the body uses for the graph inputs (rename=True
         # hands out short names in the order of first use, so the body is translated first).
+        self._name_remappings.append({})  # as for functions: loops in the body record remappings
         body = self._translate_graph_body(graph, opsets, indent=indent_level)
         return_values = ", ".join(self._translate_onnx_var(x) for x in graph.output)
         signature = _translate_signature(graph.input, graph.output, self._translate_onnx_var)
+        self._name_remappings.pop()
         add(f"{indent}def {function_name}{signature}")
         indent = indent + _SINGLE_INDENT
         doc = graph.doc_string
